@@ -279,10 +279,15 @@ func ZZ_C07_R1_slash_tracker_snapshot_is_deep() {
 func ZZ_C07_O1_oversize_transactions_leave_no_trace() {
 	w := zzWorldValues()
 	sm, st := zzBuildWorld(w)
-	s1 := zzTxSpec{from: 0, to: 1, signer: 0, amount: zzN64("t1.amount"), fee: zzN64("t1.fee"), created: 10, time: 1, net: 1, chain: 1}
+	ref, stRef := zzBuildWorld(w)
+	// t1 and t3 are plain payments, t2 has arbitrary amount and fee (it may fail in any way); all
+	// balances are arbitrary, and so are the sizes that decide where the block limit falls
+	s1 := zzTxSpec{from: 0, to: 1, signer: 0, amount: 1, fee: 10000, created: 10, time: 1, net: 1, chain: 1}
 	s2 := zzTxSpec{from: 1, to: 2, signer: 1, amount: zzN64("t2.amount"), fee: zzN64("t2.fee"), created: 10, time: 2, net: 1, chain: 1}
+	s3 := zzTxSpec{from: 2, to: 0, signer: 2, amount: 77, fee: 10000, created: 10, time: 3, net: 1, chain: 1}
+	txs := [][]byte{zzSendTxBytes(s1), zzSendTxBytes(s2), zzSendTxBytes(s3)}
 	r := &lib.ApplyBlockResults{}
-	if sm.ApplyTransactions(context.Background(), [][]byte{zzSendTxBytes(s1), zzSendTxBytes(s2)}, r, true) != nil {
+	if sm.ApplyTransactions(context.Background(), txs, r, true) != nil {
 		return
 	}
 	zzAssert("C07.O1.fsm-back-on-original-store", sm.store == lib.RWStoreI(st))
@@ -293,5 +298,11 @@ func ZZ_C07_O1_oversize_transactions_leave_no_trace() {
 	sm.ResetCaches()
 	stored := zzBalances(sm)
 	zzAssert("C07.O1.caches-agree-with-the-store-after-the-call", cached == stored)
+	// the stored state is exactly what the transactions that are IN the block produce
+	rr := &lib.ApplyBlockResults{}
+	if ref.ApplyTransactions(context.Background(), r.Txs, rr, false) == nil && len(rr.Failed) == 0 {
+		ref.ResetCaches()
+		zzAssert("C07.O1.state-is-that-of-the-included-transactions-only", zzBalances(ref) == stored && zzSameKV(st, stRef))
+	}
 	zzReach("C07.O1.done")
 }
